@@ -31,14 +31,29 @@ func (in *Interp) binop(op token.Token, x, y Value, xt, yt types.Type) Value {
 		switch op {
 		case token.ADD:
 			return smt.StrConcat(a, b)
-		case token.LSS:
-			return smt.App(smt.KBool, 0, "str.<", a, b)
-		case token.LEQ:
-			return smt.App(smt.KBool, 0, "str.<=", a, b)
-		case token.GTR:
-			return smt.App(smt.KBool, 0, "str.<", b, a)
-		case token.GEQ:
-			return smt.App(smt.KBool, 0, "str.<=", b, a)
+		case token.LSS, token.LEQ, token.GTR, token.GEQ:
+			if a.Const && b.Const {
+				switch op {
+				case token.LSS:
+					return smt.Bool(a.Str < b.Str)
+				case token.LEQ:
+					return smt.Bool(a.Str <= b.Str)
+				case token.GTR:
+					return smt.Bool(a.Str > b.Str)
+				default:
+					return smt.Bool(a.Str >= b.Str)
+				}
+			}
+			switch op {
+			case token.LSS:
+				return smt.App(smt.KBool, 0, "str.<", a, b)
+			case token.LEQ:
+				return smt.App(smt.KBool, 0, "str.<=", a, b)
+			case token.GTR:
+				return smt.App(smt.KBool, 0, "str.<", b, a)
+			default:
+				return smt.App(smt.KBool, 0, "str.<=", b, a)
+			}
 		}
 		in.end("unmodelled", "string binop %s", op)
 	}
